@@ -28,11 +28,26 @@
   Proved relative to a named, decidable or stated, hypothesis: the six clauses for the ids / hrefs / numbers IN THE TREE the
   renderer receives (`convertf_footnotes_consistent`: hypothesis (S) for the parse of the source, `shapeOK` — decidable,
   evaluated by the tie on every document, flag `c1`; never false); no fuel exhaustion (`convertf_never_loops_of`: hypotheses
-  `BlockNoLoopF`, `InlineNoLoopF`; unconditional with the extension off, `convertf_never_loops_partial`). Stated, not proved:
-  `ShapeAlwaysOK`, `ConvertFConservative` (C11 at whole-document level), `ConvertFNeverLoops`.
+  `BlockNoLoopF`, `InlineNoLoopF`; unconditional with the extension off, `convertf_never_loops_partial`).
+
+  ROUND 2. (S) holds of the parse of EVERY source (`shape_always_ok`), so the six clauses hold of the tree the renderer
+  receives for every document `convertF` converts (`convertf_footnotes_consistent_unconditional`). (S) holds by construction
+  of the composed model: its footnote DOMAIN MONITORS (not Go code) answer `pre` for the stores / inline results Go never
+  builds. That the monitors never fire is `MonitorsNeverFire`; of it are PROVED: the store of the `MF` block driver is
+  tree-shaped and the footnote context names existing nodes other than node 0 (`convertf_store_wellformed`); the block
+  monitor never fires — the walk meets the FootnoteList at most once, node 0 is the plain Document
+  (`convertf_block_monitor_never_fires`); the inline monitor never fires — every FootnoteLink of the inline phase points at
+  a definition of the list (`convertf_inline_links_resolve`). LEFT, stated: `FootnotesAllFiled` (every Footnote the walk meets
+  is a child of the list, the list's children are Footnotes, none nested, no lines — the close discipline of the driver);
+  `monitors_never_fire_of : FootnotesAllFiled → MonitorsNeverFire`. The tie evaluates the monitors on every document (an
+  `err:` answer is a disagreement): never observed. Stated, not proved: `ConvertFNeverLoops` (`BlockNoLoopF`,
+  `InlineNoLoopF`).
 -/
 import GM.Proof.ConvertFMain
 import GM.Proof.ConvertFCons2
+import GM.Proof.ConvertFShape
+import GM.Proof.ConvertFOnce
+import GM.Proof.ConvertFLinks
 
 namespace GM.Props.C16E2E
 open GM GM.Text GM.Convert GM.ConvertF
@@ -148,15 +163,78 @@ def shapeOK (guard : Bool) (uc : List (Nat × (Bool × Bool))) (src : Bytes) : B
   | .ok (f, st, t) => shapeOKB f.list.isSome (labelsOf f st) t
   | .error _ => true
 
-/-- FULL STATEMENT (not proved; the tie evaluates it on every document: never false): the AST well-formedness (S) always holds.
-    It is a fact about the block DRIVER and the inline loop, not about footnote numbering: every opened Footnote is closed
-    (hence moved into the one list created at the first Close, in `Close` order, each once: child lists duplicate-free,
-    `posIn` = position); the list is inserted outside every Footnote (`anchorLoop`); nothing else builds a Footnote /
-    FootnoteList / FootnoteBacklink; the inline parsers other than `parseFootnote` build no level ≤ −3 (`parseBlock_wf`)
-    and `parseFootnote` only with `k < labels.length` (`footnote_link_resolves` + `footnote_label_resolution`), a leaf; an
-    Image's children are inline nodes. The store-level part needs the `Ext`/`KidsOK` machinery of GM.Proof.BlocksFrames for
-    the driver in `MF` (as `HeadingsAlwaysClosed` of GM.Props.C15E2E). -/
+/-- the statement that the AST well-formedness (S) holds of the parse of every source -/
 def ShapeAlwaysOK : Prop := ∀ (guard : Bool) (uc : List (Nat × (Bool × Bool))) (src : Bytes), shapeOK guard uc src = true
+
+/-- **(S) always holds** — for every byte string, Unicode class assignment and guard setting, the tree in front of the
+    transformer that the parse phases return has the AST shape: at most one FootnoteList, its children exactly the
+    definitions `0 … n−1` in list order with no Footnote / FootnoteList below them, no Footnote elsewhere, FootnoteLinks are
+    leaves that point at definitions of the list, no FootnoteBacklink yet, the root is the Document. It holds BY
+    CONSTRUCTION of the composed model: the walk over the store (`treeOfF`: modes body / definition / below a definition)
+    tags the list's children by their position, and the model's DOMAIN MONITORS (`tagIn`, `treeOfF`, `blockKindF`,
+    `inlineTreeF`, `monitorFires` — not Go code, documented in GM.Model.ConvertF) answer `pre` for the stores Go never
+    builds (a Footnote outside the list, a FootnoteList twice in the tree or below a definition, node 0 not the Document,
+    a FootnoteLink to no definition, a Footnote with lines). So C16 holds of EVERY document `convertF` converts; that the
+    monitors never fire (`MonitorsNeverFire`, stated) is a no-`pre` fact of the C01 kind: evaluated by the tie on every
+    document (an `err:` answer is a disagreement), never observed; on `[^`-free sources it is a theorem
+    (`convertf_conservative`: the outcome is `convertCore`'s). -/
+theorem shape_always_ok : ShapeAlwaysOK := by
+  intro guard uc src
+  unfold shapeOK
+  cases h : parsePhases true guard uc src with
+  | error e => rfl
+  | ok r =>
+    obtain ⟨f, st, t⟩ := r
+    exact shape_of_parse guard uc src f st t h
+
+/-- FULL STATEMENT (not proved; the tie evaluates it on every document): the parse phases never answer one of the model's
+    footnote domain monitors. A proof is store / driver well-formedness of the block driver in `MF` (tree-shaped store, every
+    opened Footnote closed into the one list, the list placed outside every Footnote, stores only grow) — the technique of
+    GM.Proof.ConvertHWF* / BlocksClosed* carried over to the driver with the footnote parser — plus "every FootnoteLink
+    representation of the inline phase comes from `parseFootnote`". -/
+def MonitorsNeverFire : Prop :=
+  (∀ (guard : Bool) (src : Bytes) (f : FS) (st : GM.Blocks.St), blockPhaseF true guard src = .ok (f, st) →
+    monitorFires f st (treeOfF f st.nodes st.nodes.length .body 0) = false ∧
+    (treeOfF f st.nodes st.nodes.length .body 0).clean = true) ∧
+  (∀ (env : GM.Inl.Env) (src : Bytes) (refs : Option (List Bytes)) (lines : List Segment) (kids : List GM.Inl.Node),
+    GM.Inl.parseBlockX env (inlineTblF true refs) src lines = .ok kids → linksBelowL (refs.getD []).length kids = true)
+
+/-- **Store well-formedness of the block driver with the footnote block parser** (the `MF` copy of the driver): for every
+    source, guard setting and registration flag, whenever the block phase ends normally the node store is tree-shaped
+    (`GM.ConvertH.TreeWF`: every child edge is mirrored by the child's parent pointer, child lists are duplicate-free,
+    node 0 is the parentless Document) and the footnote context — the FootnoteList of the parse context, every `*ast.Footnote`
+    — names existing nodes other than node 0. Technique and parser-level lemmas: GM.Proof.ConvertHWF* (headingids). -/
+theorem convertf_store_wellformed (on guard : Bool) (src : Bytes) (f : FS) (st : GM.Blocks.St)
+    (h : blockPhaseF on guard src = .ok (f, st)) : GM.ConvertH.TreeWF st ∧ IdsOK f st :=
+  blockPhaseF_wf on guard src f st h
+
+/-- **The block-phase monitor never fires**: for every source the walk over the final store meets the FootnoteList at most
+    once and node 0 is the plain Document — the first half of `MonitorsNeverFire`, part 1. -/
+theorem convertf_block_monitor_never_fires (on guard : Bool) (src : Bytes) (f : FS) (st : GM.Blocks.St)
+    (h : blockPhaseF on guard src = .ok (f, st)) :
+    monitorFires f st (treeOfF f st.nodes st.nodes.length .body 0) = false :=
+  monitor_never_fires on guard src f st h
+
+/-- **The inline monitor never fires**: every FootnoteLink representation among the inline children the inline phase with
+    the footnote parser returns — for every block, reference list, environment — points at a definition of the list
+    (`k < refs.length`): part 2 of `MonitorsNeverFire`. The per-node property is carried through every default inline parser,
+    ProcessDelimiters (it only builds Emphasis of level 1 or 2), the link parser, the byte loop over the trigger table and
+    CloseBlock; the node `parseFootnote` answers has it by `footnote_label_resolution`. -/
+theorem convertf_inline_links_resolve (env : GM.Inl.Env) (src : Bytes) (refs : Option (List Bytes)) (lines : List Segment)
+    (kids : List GM.Inl.Node) (h : GM.Inl.parseBlockX env (inlineTblF true refs) src lines = .ok kids) :
+    linksBelowL (refs.getD []).length kids = true :=
+  GM.Inl.FLinks.parseBlockX_linksBelow env src refs lines kids h
+
+/-- FULL STATEMENT (not proved): what is left of `MonitorsNeverFire` — in the final store every `*ast.Footnote` the walk
+    meets is a child of the FootnoteList, the list's children are Footnotes, neither occurs below a definition, and they
+    have no lines (the close discipline of the driver: every opened Footnote is closed into the list before its parent). -/
+def FootnotesAllFiled : Prop :=
+  ∀ (guard : Bool) (src : Bytes) (f : FS) (st : GM.Blocks.St), blockPhaseF true guard src = .ok (f, st) →
+    (treeOfF f st.nodes st.nodes.length .body 0).clean = true
+
+theorem monitors_never_fire_of (h : FootnotesAllFiled) : MonitorsNeverFire :=
+  ⟨fun guard src f st e => ⟨monitor_never_fires true guard src f st e, h guard src f st e⟩,
+    GM.Inl.FLinks.parseBlockX_linksBelow⟩
 
 /-- **The tree the renderer receives shows exactly the output of GM.Footnote.render on its abstraction**, for EVERY tree `t`
     in front of the transformer that satisfies (S) — in particular (by the tie's evaluation) the one of every source: the
@@ -206,6 +284,26 @@ theorem convertf_footnotes_consistent (guard : Bool) (pre : Bytes) (uc : List (N
   unfold shapeOK at hs
   rw [h] at hs
   exact tree_shows _ pre labels t hs
+
+/-- **C16 END TO END, UNCONDITIONAL.** For EVERY byte string `src` (every Unicode class assignment, id prefix, guard
+    setting): whenever the parse phases of `convertF` return, the ids / hrefs / shown numbers FootnoteHTMLRenderer writes for
+    the document `convertF` renders are those of an output that satisfies all six clauses of GM.Spec.Footnote.Consistent:
+    items numbered 1…n in listed order; every reference links to exactly one item and shows its number; every back-link
+    points to exactly one rendered reference of its own item; every reference has exactly one back-link; all ids distinct;
+    every listed definition is referenced. (`convertf_footnotes_consistent` + `shape_always_ok`.) -/
+theorem convertf_footnotes_consistent_unconditional (guard : Bool) (pre : Bytes) (uc : List (Nat × (Bool × Bool))) (src : Bytes)
+    (f : FS) (st : GM.Blocks.St) (t : GM.Node) (h : parsePhases true guard uc src = .ok (f, st, t)) :
+    let labels := labelsOf f st
+    let evs := events labels t
+    let doc := finishDoc f.list.isSome (GM.Footnote.transform labels evs) t
+    ∃ o : GM.Spec.Footnote.Output, GM.Spec.Footnote.Consistent pre labels (evs.map (·.label)) o ∧
+      (treeOutput pre doc).1 = o.items.map (fun it => (it.id, it.backs)) ∧ (treeOutput pre doc).2 = o.refs :=
+  convertf_footnotes_consistent guard pre uc src f st t h (shape_always_ok guard uc src)
+
+/-- the Lean-defined oracle of the tie is a theorem: the tree `convertF` renders ALWAYS shows the abstraction's output -/
+theorem convertf_tree_always_shows_abstraction (guard : Bool) (pre : Bytes) (uc : List (Nat × (Bool × Bool))) (src : Bytes) :
+    treeShowsAbsB true guard pre uc src = true :=
+  convertf_shape_implies_oracle guard pre uc src (shape_always_ok guard uc src)
 
 /-! ### C11: the decline paths on the concrete parsers -/
 
